@@ -80,7 +80,7 @@ theorem stepTask_W {cfg : Cfg} {s s' : St} {i : Nat} (hJP : JP s) (hTC : TC s) (
       have hTNi := hTN i (by omega)
       have hTCi := hTC i (by omega)
       have hDH : ∀ o, o < s.nconns → (s.conns o).phase = .dialing → (s.conns o).h = .idle :=
-        fun o ho => (hJP o ho).2.2
+        fun o ho hp => ((hJP o ho).2.2.1 hp).1
       simp only [] at h
       cases hpc : (s.tasks i).pc <;> simp only [hpc] at h
       all_goals (repeat' (split at h))
